@@ -555,6 +555,21 @@ func main() {
 			}
 		}
 	}
+	// names of every byte length up to 300 that end in a character of 1, 2, 3 and 4 bytes (so a
+	// multi-byte character straddles every offset at which a name could be cut, counted or padded),
+	// qualified and unqualified, and the same with the wide character in front
+	for L := 1; L <= 300; L++ {
+		for _, wide := range []string{"a", "é", "€", "😀"} {
+			for _, prefix := range []string{"vendor.com/class=", ""} {
+				fill := L - len(prefix) - len(wide)
+				if fill < 0 {
+					continue
+				}
+				st = append(st, Case{Kind: "name", Stress: fmt.Sprintf("name-of-%d-bytes-ending-in-a-%d-byte-character", L, len(wide)), Bytes: []byte(prefix + strings.Repeat("a", fill) + wide)})
+				st = append(st, Case{Kind: "name", Stress: fmt.Sprintf("name-of-%d-bytes-starting-with-a-%d-byte-character", L, len(wide)), Bytes: []byte(prefix + wide + strings.Repeat("a", fill))})
+			}
+		}
+	}
 	for i := range st {
 		jobs = append(jobs, job{kind: "stress", bi: i})
 	}
@@ -567,7 +582,7 @@ func main() {
 		return fmt.Sprintf("(a) %d base documents x every member position (present members, absent optional members, first/last list elements, one unknown member per object) x an 18-value type-confusion domain "+
 			"(absent, null, strings, 0, -1, 2^32, 2^63, below int64, 1.5, true, [], [null], [\"\"], [[]], [{}], {}, {x:null}, deep nesting) and every single value-level defect of C05's generator (malformed names, keys, paths, versions, sizes): %d documents (+%d confusion pairs), JSON and YAML, through ParseSpec, ReadSpec, cache Refresh and every query, "+
 			"MinimumRequiredVersion/ValidateVersion, schema ValidateData/ValidateReader/ReadAndValidate/ValidateFile/Validate, and - when the document loads - InjectDevices/ApplyEdits of every device into %d OCI spec shapes; "+
-			"(b) every byte string of length 0..%d over %d structural bytes (%d strings); (b2) every string of up to %d tokens over %q (%d strings) as device name, annotation key/value, plugin and device id through the parser, the annotation helpers, GetDevice and InjectDevices; (c) %d stress documents and directory populations (0..5 + 0..4 valid files in two directories all defining one device, with and without an unparsable file in between); (d) documents of (a) loaded by the watcher goroutine of an auto-refresh cache in worker subprocesses. "+
+			"(b) every byte string of length 0..%d over %d structural bytes (%d strings); (b2) every string of up to %d tokens over %q (%d strings) as device name, annotation key/value, plugin and device id through the parser, the annotation helpers, GetDevice and InjectDevices, and names of every byte length 1..300 that end in / start with a character of 1..4 bytes; (c) %d stress documents and directory populations (0..5 + 0..4 valid files in two directories all defining one device, with and without an unparsable file in between); (d) documents of (a) loaded by the watcher goroutine of an auto-refresh cache in worker subprocesses. "+
 			"Oracle: no panic, no process death, a file that does not load has a cache error entry. Distinct by construction; every case is non-trivial (it is executed against all entry points)",
 			len(bases), nDocs.Load(), nPairs.Load(), len(ociShapes), L, len(structural), nBytes.Load(), NL, nameTokens, nNames.Load(), len(st))
 	}
